@@ -109,6 +109,34 @@ theorem c_delta_unsigned_roundtrip (xs : List Nat) (hx : U64s xs) (hn : xs.lengt
   exact Varint.Bridge.Delta.deltaDecodeUnsigned_eq _ hb (by rw [List.length_append]; omega) xs.length (by omega) xs _
     (Delta.decU_encU xs hx rest) fuel (by omega)
 
+/-- **signed delta, both directions on the machine translation**: for every array of int64 values (given as their
+    64-bit patterns) whose neighbouring differences are representable in int64 — the signed codec's documented domain;
+    outside it the C's `values[i] - prev` is undefined — `varintDeltaEncode` leaves the model's bytes (each index below
+    n once, none beyond) and `varintDeltaDecode` of them stores the original patterns and returns n -/
+theorem c_delta_signed_roundtrip (xs : List Nat) (hx : U64s xs) (hn : xs.length < 2 ^ 58)
+    (hok : ∀ b t, xs = b :: t → Varint.Bridge.Delta.DiffsOK b t) (rest : List Nat)
+    (hr : ∀ b ∈ rest, b < 256) (hrl : rest.length < 2 ^ 62) (fuel : Nat) (hf : xs.length + 9 ≤ fuel) :
+    ∃ n stores,
+      Varint.Gen.C.deltaEncode fuel (Varint.Bridge.Tagged.bufOf xs) xs.length = some (n, stores) ∧
+      Varint.Bridge.External.Writes stores (Delta.encS xs) ∧ n = (Delta.encS xs).length ∧
+      Varint.Gen.C.deltaDecode fuel (Varint.Bridge.Tagged.bufOf (Delta.encS xs ++ rest)) xs.length =
+        some (n, Varint.Bridge.storesFrom 0 xs) := by
+  obtain ⟨stores, h1, h2⟩ := Varint.Bridge.Delta.deltaEncode_eq xs hx (by omega) hok fuel hf
+  refine ⟨_, stores, h1, h2, rfl, ?_⟩
+  have hb : ∀ b ∈ Delta.encS xs ++ rest, b < 256 := by
+    intro b hbm
+    rcases List.mem_append.1 hbm with h | h
+    · exact Varint.Bridge.Delta.encS_lt xs hx b h
+    · exact hr b h
+  have hle := Delta.encS_length_le xs hx
+  have hm : Delta.maxSize xs.length ≤ 9 * xs.length + 9 := by unfold Delta.maxSize; split <;> omega
+  exact Varint.Bridge.Delta.deltaDecode_eq _ hb (by rw [List.length_append]; omega) xs.length (by omega) xs _
+    (Delta.decS_encS xs hx rest) fuel (by omega)
+
+/-- non-vacuity of the representability premise: an array with negative and positive steps -/
+example : Varint.Bridge.Delta.DiffsOK 5 [2 ^ 64 - 3, 7, 2 ^ 62] := by
+  simp only [Varint.Bridge.Delta.DiffsOK, toI64]; decide
+
 /-! ## group varint (1–64 fields) -/
 
 /-- group: decode(encode) returns the fields and the number of bytes consumed = bytes written;
